@@ -16,7 +16,7 @@ TYPES = {
     "BOOLVECTOR": ("bvec", lambda k: [True] * k), "INTVECTOR": ("ivec", lambda k: [k, k + 1]), "FLOATVECTOR": ("fvec", lambda k: [fbits(float(k))]),
 }
 ASSUMPTIONS = ["stack depths stay below 2^31 (the `size() as i32` cast); the Vec cannot be driven there by the check",
-               "vector stack types are claimed only once their registry tables are part of the model (names not registered in the model are skipped and reported in the stream note)"]
+               "BOOLVECTOR/INTVECTOR/FLOATVECTOR have no ROT instruction in the registry (vector.rs registers none): the property's 'every stack type' is read over the instructions that exist (C05_uniform_vector_stacks proves the absence)"]
 
 
 def model_names():
